@@ -11,7 +11,7 @@ from typing import List, Tuple
 
 from pyopenapi_gen.context.render_context import RenderContext
 
-from .code_writer import CodeWriter
+from .code_writer import CodeWriter, python_string_literal
 from .documentation_writer import DocumentationBlock, DocumentationWriter
 
 
@@ -96,7 +96,7 @@ class PythonConstructRenderer:
             writer.write_line(f"class {alias_name}Discriminator:")
             writer.write_line(f'    """Discriminator metadata for {alias_name} union."""')
             writer.write_line("")
-            writer.write_line(f'    property_name: str = "{discriminator.property_name}"')
+            writer.write_line(f"    property_name: str = {python_string_literal(discriminator.property_name)}")
             writer.write_line(f'    """The discriminator property name"""')
             writer.write_line("")
 
@@ -107,7 +107,7 @@ class PythonConstructRenderer:
                 writer.write_line("    _mapping_data: tuple[tuple[str, str], ...] = (")
                 for disc_value, schema_ref in discriminator.mapping.items():
                     schema_name = schema_ref.split("/")[-1]
-                    writer.write_line(f'        ("{disc_value}", "{schema_name}"),')
+                    writer.write_line(f'        ({python_string_literal(disc_value)}, "{schema_name}"),')
                 writer.write_line("    )")
                 writer.write_line("")
                 writer.write_line("    def get_mapping(self) -> dict[str, type]:")
@@ -120,7 +120,7 @@ class PythonConstructRenderer:
                 writer.write_line("        return {")
                 for disc_value, schema_ref in discriminator.mapping.items():
                     schema_name = schema_ref.split("/")[-1]
-                    writer.write_line(f'            "{disc_value}": {schema_name},')
+                    writer.write_line(f"            {python_string_literal(disc_value)}: {schema_name},")
                 writer.write_line("        }")
             else:
                 writer.write_line("    _mapping_data: tuple[tuple[str, str], ...] | None = None")
@@ -206,7 +206,7 @@ class PythonConstructRenderer:
         # Write Enum members
         for member_name, value in values:
             if base_type == "str":
-                writer.write_line(f'{member_name} = "{value}"')
+                writer.write_line(f"{member_name} = {python_string_literal(str(value))}")
             else:  # int
                 writer.write_line(f"{member_name} = {value}")
 
@@ -321,7 +321,7 @@ class PythonConstructRenderer:
             writer.write_line("key_transform_with_load = {")
             writer.indent()
             for api_field, python_field in sorted(field_mappings.items()):
-                writer.write_line(f'"{api_field}": "{python_field}",')
+                writer.write_line(f'{python_string_literal(api_field)}: "{python_field}",')
             writer.dedent()
             writer.write_line("}")
 
@@ -330,7 +330,7 @@ class PythonConstructRenderer:
             writer.indent()
             # Reverse the mapping for dump
             for api_field, python_field in sorted(field_mappings.items(), key=lambda x: x[1]):
-                writer.write_line(f'"{python_field}": "{api_field}",')
+                writer.write_line(f'"{python_field}": {python_string_literal(api_field)},')
             writer.dedent()
             writer.write_line("}")
 
